@@ -173,6 +173,8 @@ def build(kind, variant, key):
                 root = new_root(json.loads(pkey), state, p[1], act, args)
                 if kind == "sdv" and type(r._seq).__name__ != "SeqDataView":
                     pass  # a conversion leaves the collection: from here on it is a plain new-style sequence (kind "new")
+                elif act == "Conv" and I.view_fields(r._seq)[5] != state[3]:
+                    pass  # the spec allows several seqids for a converted sequence; the real call took another one
                 elif str(r) == I.render(root, state[4], state[5], state[2]):
                     res = (r, root)
             except Exception:
